@@ -247,6 +247,16 @@ let run id op a =
                done;
                (match ct_of_array (Array.to_list arr) with None -> "PANIC" | Some ct' ->
                   show_dec (dec shake256 sha3_256 sk ct')))))
+  | "tamperntt" ->
+      (match kg (n 0) with None -> "PANIC" | Some (sk, pk) ->
+         (match enc_memo (n 0) pk (n 1) with None -> "PANIC" | Some (_, ct) ->
+            (match array_of_ct ct, coset_ntt_noswap_64 (elems (List.tl (List.tl a))) with
+             | Some arr, Some e ->
+                 let arr = Array.of_list arr and e = Array.of_list e in
+                 for i = 0 to 63 do arr.(256 + i) <- fp_add arr.(256 + i) e.(i) done;
+                 (match ct_of_array (Array.to_list arr) with None -> "PANIC" | Some ct' ->
+                    show_dec (dec shake256 sha3_256 sk ct'))
+             | _ -> "PANIC")))
   | "decother" ->
       (match kg (n 0), kg (n 1) with
        | Some (_, pk1), Some (sk2, _) ->
